@@ -57,6 +57,11 @@ IMMUTABLE_PARAMETERS = ("ep", "d", "proxy")
 # so their names need to be a parmname of RFC 6690
 _PARMNAME = re.compile(r"[A-Za-z0-9!#$&+\-.^_`|~]+")
 
+# Characters that can not be part of a URI (they delimit URIs, see RFC 3986
+# Appendix C). A link target is written between < and > as it is, so they would
+# end it early or make the link-format unreadable.
+_NOT_IN_URI = re.compile(r'[\x00-\x20<>"\x7f]')
+
 
 class NoActiveRegistration(error.ConstructionRenderableError):
     code = codes.PROXYING_NOT_SUPPORTED
@@ -215,6 +220,9 @@ class CommonRD:
                 set_base = pop_single_arg(registration_parameters, "base")
                 if set_base is None:
                     raise error.BadRequest("base needs a value")
+                if _NOT_IN_URI.search(set_base):
+                    # it becomes part of the link targets in resource lookups
+                    raise error.BadRequest("base is not a usable URI")
                 try:
                     # the links are later resolved against it
                     urljoin(set_base, "/")
@@ -445,6 +453,8 @@ def link_format_from_message(message):
         if certain_format == ContentFormat.LINKFORMAT:
             links = parse(message.payload.decode("utf8"))
             for link in links.links:
+                if _NOT_IN_URI.search(link.href):
+                    raise ValueError("Target is not a URI reference")
                 # lookups resolve them against the registration's base
                 urljoin("coap://x/", link.href)
                 if "anchor" in link:
